@@ -74,9 +74,11 @@ def run_world(facts, rep, w, floors):
     # R08.2 provenance at every mutated operand inside the overlay implementation
     obs = overlay_bodies(facts, w)
     n_sites = 0
+    kinds_seen = set()
     for b in obs:
         for site, j, origin in pf.mutated_operands(b, mut):
             n_sites += 1
+            kinds_seen.add((site.short, j))
             classes = {classify_origin(o): o for o in origin}
             bad = [o for o in origin if classify_origin(o) != "upper"]
             desc = "%s operand%d" % (site.short, j)
@@ -97,7 +99,10 @@ def run_world(facts, rep, w, floors):
                         n_any += 1
     rep.floor("positive control: receivers classified as 'any layer' in %s" % w.overlay, n_any, 4)
     floors_key = "mutated-operand sites in %s" % w.overlay
-    rep.floor(floors_key, n_sites, floors["sites"])
+    # the floor counts the distinct (mutating call, operand) kinds the rule judged, not the sites: folding two identical steps
+    # into one private helper removes a site, never a kind
+    rep.note("%s: %d mutated-operand sites of %d kinds" % (tag, n_sites, len(kinds_seen)))
+    rep.floor(floors_key, len(kinds_seen), floors["sites"])
 
     # R08.3 observers are pure: overlay observers
     om = facts.impl_methods(w.trait.rsplit("::", 1)[1], w.overlay)
@@ -203,12 +208,51 @@ def fmt_origin(o):
     return " ".join(str(x) for x in o)
 
 
+def constructor_rules(facts, rep, w, rule):
+    """the overlay's constructor stores the layer slice as given (no filtering, re-ordering or dropping of layers)"""
+    from ..terms import get_tracer as _gt
+    from ..panics import norm as _norm
+    n = 0
+    ctors = [b for b in facts.bodies if b.kind != "Closure" and b.impl and b.impl["self_ty"] == w.overlay and b.impl["trait"] is None and
+             any(st.kind == "assign" and st.rv.kind == "agg" and st.rv.agg.get("adt") == w.overlay for blk in b.blocks for st in blk.stmts)]
+    for b in ctors:
+        tr = _gt(facts, b)
+        for blk in b.blocks:
+            if blk.cleanup:
+                continue
+            for st in blk.stmts:
+                if st.kind == "assign" and st.rv.kind == "agg" and st.rv.agg.get("adt") == w.overlay:
+                    v = _norm(tr.rvalue(st.rv, frozenset()))
+                    lay = None
+                    for f_, t_ in v[3]:
+                        tyf = next((x["ty"] for a in [facts.adts.get(w.overlay)] if a for vv in a["variants"] for x in vv["fields"] if x["name"] == f_), "")
+                        if "Vec<" in tyf:
+                            lay = t_
+                    x = lay
+                    okl = False
+                    for _ in range(4):
+                        if x is None:
+                            break
+                        if x[0] == "arg" and x[1] == 0:
+                            okl = True
+                            break
+                        if x[0] == "call" and x[1] in ("slice::to_vec", "ToOwned::to_owned", "Into::into", "From::from", "Vec::from", "Clone::clone") and x[2]:
+                            x = _norm(x[2][0])
+                            continue
+                        break
+                    n += 1
+                    rep.ob(rule, b.id, "constructor stores the layers as given", okl,
+                           "" if okl else "the stored layer list is %s, not the argument itself: layers can be dropped or re-ordered, so "
+                           "writes can land in what the caller passed as a lower layer" % fmt(lay)[:60] if lay is not None else "?", st.line)
+    return n
+
+
 def run(facts, rep, tier, ctx):
     ws = World(facts, False)
-    run_world(facts, rep, ws, {"sites": 16, "observers": 9})
+    run_world(facts, rep, ws, {"sites": 10, "observers": 9})
     wa = World(facts, True)
     if wa.present():
-        run_world(facts, rep, wa, {"sites": 16, "observers": 9})
+        run_world(facts, rep, wa, {"sites": 10, "observers": 9})
     else:
         rep.fail("R08.4", "async_vfs", "async world present", "async_vfs module not found in the all-features build")
     # R08.10 a layer may itself be an adapter: what the overlay asks of an altroot layer is what reaches the filesystem behind it
@@ -246,41 +290,9 @@ def run(facts, rep, tier, ctx):
         rep.floor("copy_file obligations on the physical backend (%s)" % w.tag, k, 2)
     # R08.8 the write layer is the caller's first layer: the constructor stores the layer slice as given (no filtering,
     # re-ordering or dropping of layers — a dropped first layer silently turns the second one into the write layer)
-    from ..terms import get_tracer as _gt
-    from ..panics import norm as _norm
     for w in (ws, wa):
-        if not w.present():
-            continue
-        ctors = [b for b in facts.bodies if b.kind != "Closure" and b.impl and b.impl["self_ty"] == w.overlay and b.impl["trait"] is None and
-                 any(st.kind == "assign" and st.rv.kind == "agg" and st.rv.agg.get("adt") == w.overlay for blk in b.blocks for st in blk.stmts)]
-        for b in ctors:
-            tr = _gt(facts, b)
-            for blk in b.blocks:
-                if blk.cleanup:
-                    continue
-                for st in blk.stmts:
-                    if st.kind == "assign" and st.rv.kind == "agg" and st.rv.agg.get("adt") == w.overlay:
-                        v = _norm(tr.rvalue(st.rv, frozenset()))
-                        lay = None
-                        for f_, t_ in v[3]:
-                            tyf = next((x["ty"] for a in [facts.adts.get(w.overlay)] if a for vv in a["variants"] for x in vv["fields"] if x["name"] == f_), "")
-                            if "Vec<" in tyf:
-                                lay = t_
-                        x = lay
-                        okl = False
-                        for _ in range(4):
-                            if x is None:
-                                break
-                            if x[0] == "arg" and x[1] == 0:
-                                okl = True
-                                break
-                            if x[0] == "call" and x[1] in ("slice::to_vec", "ToOwned::to_owned", "Into::into", "From::from", "Vec::from", "Clone::clone") and x[2]:
-                                x = _norm(x[2][0])
-                                continue
-                            break
-                        rep.ob(("A/" if w.asyncw else "") + "R08.8", b.id, "constructor stores the layers as given", okl,
-                               "" if okl else "the stored layer list is %s, not the argument itself: layers can be dropped or re-ordered, so "
-                               "writes can land in what the caller passed as a lower layer" % fmt(lay)[:60] if lay is not None else "?", st.line)
+        if w.present():
+            constructor_rules(facts, rep, w, ("A/" if w.asyncw else "") + "R08.8")
     # R08.7 the path layer's native fast paths run only when source and destination are the same filesystem instance:
     # otherwise a copy-up (resolved lower path -> upper path) would call the *lower layer's* own copy_file/move_file
     # with the destination string, i.e. write into the lower layer
